@@ -952,7 +952,12 @@ class OpsMixin:
     # ------------------------------------------------------------ external calls
     def call_ext(self, name, args, kwargs):
         if name.startswith("math."):
-            return self.call_math(name[5:], args, kwargs)
+            try:
+                return self.call_math(name[5:], args, kwargs)
+            except ValueError:          # the host libm refused a concrete argument (inf, nan ...): so does Python
+                self.raise_builtin("ValueError", "math domain error")
+            except OverflowError:
+                self.raise_builtin("OverflowError", "math range error")
         if name.startswith("logging."):
             self.warnings.append((name, self.to_str(args[0]) if args else ""))
             return None
@@ -1024,6 +1029,10 @@ class OpsMixin:
 
     def _real(self, v, fname):
         if isinstance(v, bool) or isinstance(v, int):
+            try:
+                float(v)        # the math module converts its arguments to C doubles
+            except OverflowError:
+                self.raise_builtin("OverflowError", "int too large to convert to float")
             return SymNum.of(v)
         if isinstance(v, SymNum):
             return v
